@@ -94,6 +94,11 @@ int main(int argc, char** argv)
         int newxta = 1;
         if (!(is >> id >> fmt >> newxta >> flags >> b64)) continue;
         std::string input = b64dec(b64);
+        std::string queries;
+        if (auto mk = input.find("\n%%QUERIES%%\n"); mk != std::string::npos) {
+            queries = input.substr(mk + 13);
+            input = input.substr(0, mk);
+        }
         std::cout << "BEGIN " << id << "\n";
         if (flags.find('w') != std::string::npos) {
             auto doc = std::make_unique<Document>();
@@ -111,6 +116,25 @@ int main(int argc, char** argv)
             std::cout << "PUB rc=" << rc << " errors=" << doc->get_errors().size() << " warnings=" << doc->get_warnings().size() << " clean=" << clean
                       << " objs=" << counts(w) << "\n";
             for (auto& v : w.viol) std::cout << "WALK " << v << "\n";
+            if (flags.find('q') != std::string::npos) {
+                // queries against the document just built ("after any parse": a query parse reads the document, it must leave it intact)
+                std::istringstream qs(queries);
+                std::string q;
+                int nq = 0, nexc = 0;
+                while (std::getline(qs, q)) {
+                    if (q.empty()) continue;
+                    ++nq;
+                    try {
+                        TigaPropertyBuilder pb(*doc);
+                        parseProperty(q.c_str(), &pb);
+                    } catch (const std::exception&) {
+                        ++nexc;
+                    }
+                }
+                auto w2 = c08::walk(*doc, false);
+                std::cout << "QRY n=" << nq << " exceptions=" << nexc << " errors=" << doc->get_errors().size() << "\n";
+                for (auto& v : w2.viol) std::cout << "QWALK " << v << "\n";
+            }
             if (flags.find('e') != std::string::npos)
                 for (auto& e : doc->get_errors()) std::cout << "ERR " << vh::quote(e.msg) << "\n";
         }
